@@ -283,6 +283,10 @@ pub enum Scenario {
     DialRawServer(Forge),
     /// a bare noq client forging its identity dials an iroh endpoint
     RawClient(Forge),
+    /// the victim first connects to the real holder of K (obtaining a session ticket), then K's
+    /// address is hijacked and the victim dials again with 0-RTT: to an iroh endpoint holding another
+    /// key (None) or to a bare noq server with the given forgery
+    ZeroRttAfterHijack(Option<Forge>),
 }
 
 #[derive(Clone, Debug, Serialize, Deserialize)]
@@ -315,7 +319,8 @@ impl Typed for C01 {
     type Case = Case;
 
     fn gen_case(&self, rng: &mut Rng, _tier: Tier) -> Case {
-        let scenario = match rng.below(10) {
+        let scenario = match rng.below(12) {
+            10 | 11 => Scenario::ZeroRttAfterHijack(if rng.coin() { None } else { Some(gen_forge(rng, false)) }),
             0 => Scenario::DialHonest,
             1 => Scenario::DialImpostorEndpoint,
             2 => Scenario::DialTwoRoutes { impostor_first: rng.coin() },
@@ -511,6 +516,135 @@ impl Typed for C01 {
                     acc.abort();
                     let _ = tokio::time::timeout(Duration::from_secs(30), cl.close()).await;
                     raw.close(0u32.into(), b"");
+                }
+                Scenario::ZeroRttAfterHijack(forge) => {
+                    let real = iroh_ep(&net, 0, &k, true).await;
+                    let cl = iroh_ep(&net, 1, &victim, false).await;
+                    let (real, cl) = match (real, cl) {
+                        (Ok(a), Ok(b)) => (a, b),
+                        (a, b) => {
+                            ctx.violate("harness-bind", format!("{:?} {:?}", a.err(), b.err()));
+                            return;
+                        }
+                    };
+                    let t_real = serve(real.clone(), "real-server");
+                    net.route(k.public(), 0);
+                    // 1. honest connection: the victim's session cache now holds tickets for K
+                    let first = tokio::time::timeout(Duration::from_secs(45), cl.connect(EndpointAddr::new(k.public()), ALPN)).await;
+                    let Ok(Ok(c1)) = first else {
+                        if lossless {
+                            ctx.violate("honest-dial-failed-without-faults", format!("{:?}", first.err()));
+                        }
+                        return;
+                    };
+                    tokio::time::sleep(Duration::from_secs(1)).await;
+                    c1.close(0u32.into(), b"bye");
+                    tokio::time::sleep(Duration::from_secs(5)).await;
+                    // 2. hijack K's address
+                    let mut imp_ep = None;
+                    let mut raw_ep = None;
+                    let mut acc = None;
+                    match forge {
+                        None => match iroh_ep(&net, 2, &adv, true).await {
+                            Ok(e) => {
+                                acc = Some(serve(e.clone(), "impostor-server"));
+                                imp_ep = Some(e);
+                            }
+                            Err(e) => {
+                                ctx.violate("harness-bind", e);
+                                return;
+                            }
+                        },
+                        Some(f) => {
+                            let Ok(cfg) = adv_server_config(advkey(f, &k)) else {
+                                ctx.count("probe.forgery_not_constructible");
+                                return;
+                            };
+                            match noq::Endpoint::new_with_abstract_socket(noq::EndpointConfig::default(), Some(cfg), net.udp_socket(2), Arc::new(noq::TokioRuntime)) {
+                                Ok(e) => {
+                                    let e2 = e.clone();
+                                    acc = Some(tokio::task::spawn_local(async move {
+                                        while let Some(inc) = e2.accept().await {
+                                            tokio::task::spawn_local(async move {
+                                                if let Ok(c) = inc.await {
+                                                    c.closed().await;
+                                                }
+                                            });
+                                        }
+                                    }));
+                                    raw_ep = Some(e);
+                                }
+                                Err(e) => {
+                                    ctx.violate("harness-bind", format!("raw endpoint: {e}"));
+                                    return;
+                                }
+                            }
+                        }
+                    }
+                    net.route(k.public(), 2);
+                    // the victim's remote state still remembers K's old address: the real holder is cut off,
+                    // so whoever answers now is the hijacker
+                    net.partition(1, 0, true);
+                    net.partition(0, 1, true);
+                    // 3. dial again, with 0-RTT if the ticket allows it
+                    let mut used_0rtt = false;
+                    let second = tokio::time::timeout(Duration::from_secs(45), async {
+                        let connecting = cl.connect_with_opts(EndpointAddr::new(k.public()), ALPN, iroh::endpoint::ConnectOptions::new()).await.map_err(|e| format!("{e:#}"))?;
+                        match connecting.into_0rtt() {
+                            Ok(early) => {
+                                used_0rtt = true;
+                                // early data for K's eyes only
+                                if let Ok(mut s) = early.open_uni().await {
+                                    let _ = s.write_all(b"early data meant for K").await;
+                                    let _ = s.finish();
+                                }
+                                match early.handshake_completed().await.map_err(|e| format!("{e:#}"))? {
+                                    iroh::endpoint::ZeroRttStatus::Accepted(c) => Ok((c.remote_id(), true)),
+                                    iroh::endpoint::ZeroRttStatus::Rejected(c) => Ok((c.remote_id(), false)),
+                                }
+                            }
+                            Err(connecting) => connecting.await.map(|c| (c.remote_id(), false)).map_err(|e| format!("{e:#}")),
+                        }
+                    })
+                    .await;
+                    ctx.ev(format!("second dial after hijack (0-RTT used: {used_0rtt}) -> {}", match &second { Ok(Ok((_, acc))) => format!("established (early data accepted: {acc})"), Ok(Err(_)) => "failed".into(), Err(_) => "timeout".into() }));
+                    let honest_raw = matches!(forge, Some(Forge::Honest));
+                    if let Ok(Ok((rid, _))) = &second {
+                        if !honest_raw {
+                            ctx.violate("connected-to-peer-without-the-secret-key", format!("after the address of K was hijacked, a (0-RTT: {used_0rtt}) dial of K completed against a peer presenting {forge:?}; reported remote id {}", rid.fmt_short()));
+                            return;
+                        }
+                        if *rid != k.public() {
+                            ctx.violate("dialer-reports-wrong-remote-id", format!("reports {}", rid.fmt_short()));
+                            return;
+                        }
+                    } else if honest_raw && lossless {
+                        ctx.violate("control-holder-of-key-could-not-connect", format!("{second:?}"));
+                        return;
+                    }
+                    tokio::time::sleep(Duration::from_secs(3)).await;
+                    if established.lock().unwrap().iter().any(|(who, _)| *who == "impostor-server") {
+                        ctx.violate("impostor-completed-handshake-as-dialed-id", "an endpoint holding another key accepted the victim's 0-RTT connection to K".to_string());
+                        return;
+                    }
+                    if used_0rtt {
+                        ctx.count("probe.zero_rtt_dial_after_hijack");
+                    }
+                    if second.as_ref().map(|r| r.is_err()).unwrap_or(true) {
+                        ctx.count("probe.hijacked_dial_refused");
+                    }
+                    t_real.abort();
+                    if let Some(a) = acc {
+                        a.abort();
+                    }
+                    let _ = tokio::time::timeout(Duration::from_secs(30), cl.close()).await;
+                    let _ = tokio::time::timeout(Duration::from_secs(30), real.close()).await;
+                    if let Some(e) = imp_ep {
+                        let _ = tokio::time::timeout(Duration::from_secs(30), e.close()).await;
+                    }
+                    if let Some(e) = raw_ep {
+                        e.close(0u32.into(), b"");
+                    }
                 }
                 Scenario::RawClient(forge) => {
                     let server = match iroh_ep(&net, 0, &k, true).await {
